@@ -1,13 +1,14 @@
 #!/bin/sh
 # tools/verify_seed.sh <ID> [worktree]  - confirm a sub-agent's seeded change: patch == worktree diff, demo FAILs with it and PASSes without it.
+# (never uses `git stash`: the stash is shared by all worktrees of a repository)
 ID="$1"; WT="${2:-/tmp/wt/$ID}"; S="${3:-/tmp/seeded/$ID}"
 git -C "$WT" diff > /tmp/seed_$ID.diff
 if ! diff -q /tmp/seed_$ID.diff "$S/patch.diff" >/dev/null; then echo "NOTE: patch.diff differs from worktree diff (using worktree diff)"; cp /tmp/seed_$ID.diff "$S/patch.diff"; fi
 git -C "$WT" diff --stat | tail -3
 (cd "$S" && PYTHONPATH="$WT" timeout 900 /venv/bin/python demo.py > "$S/demo_with.txt" 2>&1); W=$?
-git -C "$WT" stash -q
+git -C "$WT" apply -R /tmp/seed_$ID.diff || { echo "cannot reverse-apply"; exit 2; }
 (cd "$S" && PYTHONPATH="$WT" timeout 900 /venv/bin/python demo.py > "$S/demo_without.txt" 2>&1); WO=$?
-git -C "$WT" stash pop -q
+git -C "$WT" apply /tmp/seed_$ID.diff
 echo "demo exit with change=$W (want 1), without=$WO (want 0)"
 tail -2 "$S/demo_with.txt" | cut -c1-200
 rm -f /tmp/seed_$ID.diff
